@@ -38,8 +38,7 @@ package builder
 //@     (forall i int :: 0 <= i && i < len(v.G.Symbols) ==> v.G.Symbols[i] != nil)
 
 //@ func (*TemplateBuilder).buildConstPart
-//@ props C06 C08 C11 C19 C14
-//@ loop 0: order_independent
+//@ props C06 C08 C11 C19
 //@ requires b != nil && wfBuilder(b.vnode)
 //@ requires forall k string :: has(b.vnode.idsymtabl, k) ==> b.vnode.idsymtabl[k] != nil
 //@ emits [C06,C08] "const ERROR_ACTION = %d" arg1 == len(b.vnode.G.LR0.LR0Closure) + 100
@@ -51,8 +50,7 @@ package builder
 //@ ensures [C05,C08] b.NTerminals == len(b.vnode.G.VtSet)
 
 //@ func (*TsBuilder).buildConstPart
-//@ props C06 C08 C11 C14
-//@ loop 0: order_independent
+//@ props C06 C08 C11
 //@ requires b != nil && wfBuilder(b.vnode)
 //@ requires forall k string :: has(b.vnode.idsymtabl, k) ==> b.vnode.idsymtabl[k] != nil
 //@ emits [C06,C08] "const ERROR_ACTION = %d" arg1 == len(b.vnode.G.LR0.LR0Closure) + 100
